@@ -41,7 +41,7 @@ ANCHORS = ['pfhedge.nn.functional:european_payoff',
 PYTEST_WORKLOAD = True  # thorough tier also runs /repo/tests with these passive monitors attached (DESIGN.md 2.7)
 DECIDING = ["payoff.european", "payoff.lookback", "payoff.american_binary", "payoff.european_binary",
             "payoff.forward_start", "payoff.realized_variance", "derivative.payoff_fn", "clauses.order", "clauses.registry", "relations"]
-REQUIRED_BRANCHES = ["contract_terms_reassigned", "forward_start.end_before_last_step", "clauses.same_callable_registered_twice", "payoff_after_resimulation", "tie_with_unrepresentable_strike", "tie_with_strike", "call", "put", "T=1", "T=2"]
+REQUIRED_BRANCHES = ["contract_terms_reassigned", "forward_start.start_and_maturity_between_grid_points", "forward_start.end_before_last_step", "clauses.same_callable_registered_twice", "payoff_after_resimulation", "tie_with_unrepresentable_strike", "tie_with_strike", "call", "put", "T=1", "T=2"]
 
 _CTX = None
 MAXR = 12
@@ -449,6 +449,20 @@ def drv_derivative(ctx, k, rng):
     n_steps = int(pick(rng, [0, 1, 2, 4, 20]))
     frac = float(pick(rng, [0.0, 0.0, 0.5, 0.25]))
     d = P.make_derivative(rng, stock, maturity=(n_steps + (frac if n_steps else 0.0)) * stock.dt, clauses=False)
+    if k % 6 == 3:
+        # forward start with both the maturity and the start time between grid points (every combination of the two fractional parts:
+        # the reference price is the one at the last step at or before the start, wherever the maturity falls)
+        from pfhedge.instruments import EuropeanForwardStartOption
+
+        nn_ = int(pick(rng, [1, 2, 3, 5, 8]))
+        f1, f2 = float(pick(rng, [0.2, 0.4, 0.6, 0.75])), float(pick(rng, [0.1, 0.4, 0.6, 0.9]))
+        j = int(rng.integers(0, nn_ + 1))
+        if j + f2 > nn_ + f1:
+            j = nn_ - 1 if nn_ >= 1 and f2 > f1 else nn_
+        d = EuropeanForwardStartOption(stock, strike=float(pick(rng, [0.9, 1.0, 1.1])), maturity=(nn_ + f1) * stock.dt, start=(j + f2) * stock.dt)
+        d._pfv_kind = "forward_start"
+        n_steps = nn_
+        ctx.branch("forward_start.start_and_maturity_between_grid_points")
     n = int(pick(rng, [1, 3, 30]))
     d.simulate(n_paths=n)
     if rng.random() < 0.5:
